@@ -15,6 +15,7 @@ import (
 	"sync"
 
 	ed "filippo.io/edwards25519"
+	"filippo.io/edwards25519/field"
 )
 
 func scalarFrom(r *rand.Rand) *ed.Scalar {
@@ -40,6 +41,39 @@ func pointFrom(r *rand.Rand) *ed.Point {
 
 type job struct {
 	s, a, b *ed.Scalar
+}
+
+// shared read-only values in the representations where an in-place "optimisation" of a reader would show:
+// a point after arithmetic (Z != 1), field elements with loose / non-canonical limbs
+type shared struct {
+	R        *ed.Point        // A + Q, Z != 1
+	u, v, nc *field.Element   // u, v after additions (unreduced limbs); nc = non-canonical encoding of 1
+}
+
+// fieldWork: every reader / binary operation of the field and point layers with SHARED operands and PRIVATE receivers
+func fieldWork(sh *shared, iters int) []byte {
+	var out []byte
+	for k := 0; k < iters; k++ {
+		var r, t field.Element
+		_, wasSq := r.SqrtRatio(sh.u, sh.v)
+		out = append(out, r.Bytes()...)
+		out = append(out, byte(wasSq), byte(sh.u.Equal(sh.v)), byte(sh.nc.Equal(new(field.Element).One())), byte(sh.u.IsNegative()))
+		out = append(out, t.Multiply(sh.u, sh.v).Bytes()...)
+		out = append(out, t.Square(sh.u).Bytes()...)
+		out = append(out, t.Invert(sh.v).Bytes()...)
+		out = append(out, t.Subtract(sh.nc, sh.u).Bytes()...)
+		out = append(out, sh.u.Bytes()...)
+		out = append(out, sh.R.Bytes()...)
+		out = append(out, sh.R.BytesMontgomery()...)
+		X, Y, Z, T := sh.R.ExtendedCoordinates()
+		if p, err := new(ed.Point).SetExtendedCoordinates(X, Y, Z, T); err != nil || p.Equal(sh.R) != 1 {
+			out = append(out, 0xEE)
+		}
+		out = append(out, new(ed.Point).Negate(sh.R).Bytes()...)
+		out = append(out, new(ed.Point).MultByCofactor(sh.R).Bytes()...)
+		out = append(out, new(ed.Point).Subtract(sh.R, sh.R).Bytes()...)
+	}
+	return out
 }
 
 func work(j job, A, Q *ed.Point, xs []*ed.Scalar, ps []*ed.Point) []byte {
@@ -75,7 +109,24 @@ func main() {
 	for i := range jobs {
 		jobs[i] = job{scalarFrom(r), scalarFrom(r), scalarFrom(r)}
 	}
+	sh := &shared{R: new(ed.Point).Add(A, Q), u: new(field.Element), v: new(field.Element), nc: new(field.Element)}
+	var ub, vb [32]byte
+	r.Read(ub[:])
+	r.Read(vb[:])
+	sh.u.SetBytes(ub[:])
+	sh.v.SetBytes(vb[:])
+	sh.u.Add(sh.u, sh.u)
+	sh.v.Add(sh.v, sh.u)
+	ncb := [32]byte{0xee, 0xff, 0xff, 0xff, 0xff, 0xff, 0xff, 0xff, 0xff, 0xff, 0xff, 0xff, 0xff, 0xff, 0xff, 0xff, 0xff, 0xff, 0xff, 0xff,
+		0xff, 0xff, 0xff, 0xff, 0xff, 0xff, 0xff, 0xff, 0xff, 0xff, 0xff, 0x7f}
+	sh.nc.SetBytes(ncb[:]) // 2^255 - 18 = 1 mod p, limbs not reduced
+	iters := 6
+	if len(os.Args) > 3 {
+		iters, _ = strconv.Atoi(os.Args[3])
+	}
+	seqField := fieldWork(sh, iters) // field layer has no lazily built state: the sequential reference can be taken first
 	res := make([][]byte, n)
+	resF := make([][]byte, n)
 	var start, done sync.WaitGroup
 	start.Add(1)
 	for i := 0; i < n; i++ {
@@ -83,12 +134,28 @@ func main() {
 		go func(i int) {
 			defer done.Done()
 			start.Wait()
+			if i%2 == 1 {
+				resF[i] = fieldWork(sh, iters)
+			}
 			res[i] = work(jobs[i], A, Q, xs, ps)
+			if i%2 == 0 {
+				resF[i] = fieldWork(sh, iters)
+			}
 		}(i)
 	}
 	start.Done() // simultaneous first use
 	done.Wait()
 	bad := 0
+	for i := 0; i < n; i++ {
+		if !bytes.Equal(seqField, resF[i]) {
+			bad++
+			fmt.Printf("MISMATCH goroutine=%d field/point readers with shared operands: concurrent result differs from sequential result\n", i)
+		}
+	}
+	if !bytes.Equal(seqField, fieldWork(sh, iters)) {
+		bad++
+		fmt.Printf("MISMATCH shared operands were modified by readers\n")
+	}
 	for i := 0; i < n; i++ {
 		if seq := work(jobs[i], A, Q, xs, ps); !bytes.Equal(seq, res[i]) {
 			bad++
